@@ -583,6 +583,30 @@ def rule_puller(model):
             x.endswith(':SequenceFromIter')
             for x in model.callee_names(c, ens)) and len(c.args) == 1 and
         lazy_iter(c.args[0]) for c in own_nodes(ens.node))
+    # ... and nothing else is handed back: the object itself when it can
+    # be subscripted, the lazy wrapper otherwise -- a return that builds a
+    # list / tuple from the iterable pulls it to the end
+    for x in own_nodes(ens.node):
+        if not (isinstance(x, ast.Return) and x.value is not None):
+            continue
+        v = x.value
+        vals = [v]
+        if isinstance(v, ast.Name) and v.id != obj:
+            vals = [d for d in model.local_defs(ens, v.id)
+                    if isinstance(d, ast.AST)] or [v]
+        for w in vals:
+            ok_r = norm(w) == obj or (isinstance(w, ast.Call) and any(
+                y.endswith(':SequenceFromIter')
+                for y in model.callee_names(w, ens)) and len(w.args) == 1
+                and lazy_iter(w.args[0]))
+            r.instance(ens.where, x, 'the object / the lazy wrapper'
+                       if ok_r else 'SOMETHING ELSE')
+            if not ok_r:
+                r.finding(ens.where, x, f'`{norm(w)}` is handed back instead '
+                          'of the object itself or the lazy wrapper: an '
+                          'iterable that is materialised here is pulled to '
+                          'its end before the first batch is shown',
+                          node=x, ctx=ens)
     if not wrapped:
         r.finding(ens.where, ens.node.body[-1], 'non-subscriptable '
                   'iterables are not wrapped lazily', node=ens.node,
